@@ -234,3 +234,94 @@ class FuzzySelectedUnionSpec(CommandSpec):
             return fz(z3.If(tf == sv("Truest"), top, bot))
 
         return dict(shape=x.shape(L, z3.IntVal(0)), dtype=FLT, miss=lambda c: x.pmiss(L, n - 1, c), fuzzy=True, value=value)
+
+
+# ------------------------------------------------------------------ fuzzy variants of the Normalize family
+@spec("CvtToFuzzyZScore")
+class CvtToFuzzyZScoreSpec(CommandSpec):
+    uses_stats = True
+
+    def result(self, x):
+        N = "InFieldName"
+        mean, std = x.stat(N, "vmean"), x.stat(N, "vstd")
+        tt, ft = opt(x, "TrueThresholdZScore", 1), opt(x, "FalseThresholdZScore", -1)
+        x1, x2 = mean + std * tt, mean + std * ft
+        return dict(shape=x.shape(N), dtype=FLT, fuzzy=True,
+                    miss=lambda c: z3.Or(x.miss(N, c), x2 - x1 == 0),
+                    value=lambda c: fz((x.view(N, c) - x1) * (LO - HI) / (x2 - x1) + HI))
+
+
+@spec("CvtToFuzzyCat")
+class CvtToFuzzyCatSpec(CommandSpec):
+    RAW, NORMAL, DEFAULT = "RawValues", "FuzzyValues", "DefaultFuzzyValue"
+
+    def raises(self, x):
+        return SPECS["NormalizeCat"].raises.__func__(self, x)
+
+    def cat(self, x, j, c):
+        return SPECS["NormalizeCat"].cat.__func__(self, x, j, c)
+
+    def result(self, x):
+        N = "InFieldName"
+        n = x.n(self.RAW)
+        return dict(shape=x.shape(N), dtype=FLT, miss=lambda c: x.miss(N, c), fuzzy=True,
+                    value=lambda c: fz(z3.If(n == 0, x.num(self.DEFAULT), self.cat(x, n - 1, c))))
+
+
+@spec("CvtToFuzzyCurve")
+class CvtToFuzzyCurveSpec(CommandSpec):
+    RAW, NORMAL = "RawValues", "FuzzyValues"
+
+    def sorted(self, x):
+        return x.sorted(self.RAW, self.NORMAL)
+
+    def requires(self, x):
+        return SPECS["NormalizeCurve"].requires.__func__(self, x)
+
+    def raises(self, x):
+        return SPECS["NormalizeCurve"].raises.__func__(self, x)
+
+    def result(self, x):
+        N = "InFieldName"
+        P, Q, m, dist = self.sorted(x)
+        cv, facts = x.curve("nc", P, Q, m, lambda c: x.view(N, c))
+        return dict(shape=x.shape(N), dtype=FLT, miss=lambda c: x.miss(N, c), fuzzy=True, value=lambda c: fz(cv(c)))
+
+
+@spec("CvtToFuzzyCurveZScore")
+class CvtToFuzzyCurveZScoreSpec(CommandSpec):
+    uses_stats = True
+    Z, NORMAL = "ZScoreValues", "FuzzyValues"
+
+    def rawseq(self, x):
+        return SPECS["NormalizeCurveZScore"].rawseq.__func__(self, x)
+
+    def sorted(self, x):
+        return x.sorted(self.rawseq(x), self.NORMAL)
+
+    def requires(self, x):
+        return SPECS["NormalizeCurveZScore"].requires.__func__(self, x)
+
+    def raises(self, x):
+        return SPECS["NormalizeCurveZScore"].raises.__func__(self, x)
+
+    def result(self, x):
+        N = "InFieldName"
+        P, Q, m, dist = self.sorted(x)
+        cv, facts = x.curve("ncz", P, Q, m, lambda c: x.view(N, c))
+        return dict(shape=x.shape(N), dtype=FLT, miss=lambda c: x.miss(N, c), fuzzy=True, value=lambda c: fz(cv(c)))
+
+
+@spec("CvtToFuzzyMeanToMid")
+class CvtToFuzzyMeanToMidSpec(CommandSpec):
+    uses_stats = True
+
+    def requires(self, x):
+        return [x.n("FuzzyValues") == 5]
+
+    def raises(self, x):
+        return [("MixedArrayLengths", None), ("DuplicateRawValues", None)]
+
+    def result(self, x):
+        N = "InFieldName"
+        return dict(shape=x.shape(N), dtype=FLT, miss=lambda c: x.miss(N, c), fuzzy=True, value=None)
